@@ -24,7 +24,7 @@ theorem halted_rejects_data (e : Engine) (t : Nat) (bs : Bytes) (h : e.state = .
 theorem halted_rejects_service (e : Engine) (t cap pre : Nat) (h : e.state = .halted) :
     (step e (.service t cap pre)).2.result = .err "InternalStateError" ∧ (step e (.service t cap pre)).2.bytes = [] ∧
     (step e (.service t cap pre)).2.completions = [] ∧ (step e (.service t cap pre)).1.state = .halted := by
-  simp [step, Engine.begin, Engine.service, h, Engine.finish]
+  simp [step, Engine.begin, Engine.service, Engine.serviceCore, h, Engine.finish]
 
 theorem halted_rejects_write_completion (e : Engine) (t : Nat) (h : e.state = .halted) :
     (step e (.writeDone t)).2.result = .err "InternalStateError" ∧ (step e (.writeDone t)).2.bytes = [] ∧
@@ -133,7 +133,7 @@ theorem halted_step_silent (e : Engine) (ev : Event) (h : e.state = .halted) (hb
   | writeDone t =>
     simp [step, Engine.begin, Engine.handleWriteCompletion, h, haltOnErr, Engine.finish]
   | service t cap pre =>
-    simp [step, Engine.begin, Engine.service, h, Engine.finish]
+    simp [step, Engine.begin, Engine.service, Engine.serviceCore, h, Engine.finish]
   | queryNext t => simp [step, Engine.begin, h]
 
 /-- **Every continuation.**  After an error has halted the engine, for every sequence of such events, of any length
